@@ -24,6 +24,9 @@ PENDING = {}
 LEVEL_TEXT = 'Seeded search over schedules, configurations, fault sequences and operation histories with reference models as oracles; a clean batch is evidence, not proof.'
 
 CHECKS = {
+    'C19': dict(engine='simalloc+simgomp+history', design='5/C19, 4.3, 4.4',
+                technique='deterministic simulation with fault injection at the allocator seam (seeded heap poison, red zones), the thread seam (virtual-thread teams, snapshot isolation) and the history seam (other calls before, reseeded global RNG, reused argument buffers, scribbled output buffers, repetition): each catalogue routine is executed as a baseline and under tape-chosen perturbations and all executions must agree bitwise; static scan of masked-ufunc/np.empty sites with executed-under-poison coverage',
+                note='Trusted base: simalloc/simgomp, the canonicalisation of results. Compares executions with each other, not with a specification. Samplers without a seed argument are excluded (listed in the evidence). Worker-process counts are varied by C15/C10.'),
     'C06': dict(engine='history', design='5/C06, 4.5',
                 technique='deterministic simulation of operation histories: a tape-driven state machine applies up to 30 mutating, observing and environment operations (caller mutates shared arrays, edits operator results, writes through fetched rows) to RaggedArrays and compares every observer with a list-of-rows model after each step; tape minimisation yields the shortest failing history',
                 note='Trusted base: the list-of-rows model (plain NumPy per row). Only the index/value grammar of upstream tests and docstrings is generated. The history is the only nondeterminism this property has.'),
